@@ -27,3 +27,4 @@ func ConcreteBool(b bool) bool
 func IsSymbolic() bool
 func Yield()
 func Ite64(c bool, a, b uint64) uint64
+func HexString(n int, limbs ...uint64) string
